@@ -68,10 +68,22 @@ pub fn subset(all: &Arc<Vec<(RVal, Vec<u8>)>>, n: usize) -> Arc<Vec<(RVal, Vec<u
 }
 
 pub fn judge(path: &JPath, ipath: &jsonb::jsonpath::JsonPath<'static>, doc: &RVal, bytes: &[u8], acc: &mut Acc) {
+    let sel = Selector::new(ipath.clone(), Mode::All);
+    judge_with(&sel, path, doc, bytes, acc)
+}
+
+/// `sel` may have been used on other documents before: a selector must not carry state from one
+/// document to the next
+pub fn judge_with<'a>(sel: &'a Selector<'a>, path: &JPath, doc: &RVal, bytes: &'a [u8], acc: &mut Acc) {
     acc.eval();
     let ctx = || json!({"path": print_path(path), "doc": format!("{:?}", doc), "doc_hex": hex(bytes)});
     let model = eval(path, doc);
-    let s = match select(ipath, Mode::All, bytes) {
+    let r = {
+        let mut data = vec![];
+        let mut offsets = vec![];
+        guard(|| sel.select(bytes, &mut data, &mut offsets)).map(|r| Sel { res: r.map_err(|e| format!("{:?}", e)), data, offsets })
+    };
+    let s = match r {
         Ok(s) => s,
         Err(p) => {
             acc.outcome("panic");
@@ -203,8 +215,14 @@ pub fn spaces(tier: Tier) -> Vec<Space<'static>> {
         let (paths, docs) = (ps.paths.clone(), ps.docs.clone());
         sp.push(Space::new(&ps.name, n, move |i, acc| {
             let (p, ip) = &paths[i as usize];
+            // ONE selector per path, applied to every document in turn (and a fresh one per
+            // document on the way back), so state leaking between evaluations is observable
+            let sel = Selector::new(ip.clone(), Mode::All);
             for (d, b) in docs.iter() {
-                judge(p, ip, d, b, acc);
+                judge_with(&sel, p, d, b, acc);
+            }
+            for (d, b) in docs.iter().rev().take(40) {
+                judge_with(&sel, p, d, b, acc);
             }
         }));
     }
